@@ -625,8 +625,14 @@ func (p *Parser) parseSwitch() ast.Node {
 			p.nextToken() // move to the token following "case"
 			caseExprs = append(caseExprs, p.parseExpression(LOWEST))
 			for p.peekTokenIs(token.COMMA) {
-				p.nextToken() // move to the comma
-				p.nextToken() // move to the following expression
+				// move to the comma
+				if err := p.nextToken(); err != nil {
+					return nil
+				}
+				// move to the following expression
+				if err := p.nextToken(); err != nil {
+					return nil
+				}
 				caseExprs = append(caseExprs, p.parseExpression(LOWEST))
 			}
 		} else {
@@ -636,8 +642,12 @@ func (p *Parser) parseSwitch() ast.Node {
 		if !p.expectPeek("switch statement", token.COLON) {
 			return nil
 		}
-		// Now we are at the block of code to be executed for this case
-		p.nextToken()
+		// Now we are at the block of code to be executed for this case. The
+		// token does not advance once an error is recorded, so stop here in
+		// that case instead of reading the same case again.
+		if err := p.nextToken(); err != nil {
+			return nil
+		}
 		p.eatNewlines()
 		// An empty case statement is valid
 		if p.curTokenIs(token.CASE) || p.curTokenIs(token.DEFAULT) || p.curTokenIs(token.RBRACE) {
